@@ -281,6 +281,7 @@ class Stacker(Transformer):
 
         ds: DataSet = X.to_unstacked_dataset(feature_name, "variable")
         ds = self._restore_squeezed_dims(ds, X).unstack()
+        ds = self._restore_unit_feature_dims(ds)
         ds = self._reorder_dims(ds)
         return ds
 
@@ -288,6 +289,7 @@ class Stacker(Transformer):
         feature_name = self.feature_name
         ds: DataSet = data.to_unstacked_dataset(feature_name, "variable")
         ds = self._restore_squeezed_dims(ds, data).unstack()
+        ds = self._restore_unit_feature_dims(ds)
         ds = self._reorder_dims(ds)
         return ds
 
@@ -305,6 +307,16 @@ class Stacker(Transformer):
                 ds = ds.expand_dims({dim: X[dim].values})
             else:
                 ds = ds.expand_dims(dim)
+        return ds
+
+    def _restore_unit_feature_dims(self, ds: DataSet) -> DataSet:
+        """Put back the length-1 feature dimensions shared by all variables,
+        which `to_unstacked_dataset` squeezes as well."""
+        for dim in self.dims_mapping[self.feature_name]:
+            coord = self.coords_in.get(dim)
+            shared = all(dim in dims for dims in self.vars_in.values())
+            if coord is not None and coord.size == 1 and dim not in ds.dims and shared:
+                ds = ds.drop_vars(dim, errors="ignore").expand_dims({dim: coord.values})
         return ds
 
     def _type_name(self, X):
